@@ -147,8 +147,9 @@ inductive Api where
 inductive Block where
   /-- datagram arrives: immediate answers, answer groups queued, record updates; `defer`: it is a truncated query
   that is parked — for the address of timer `deferAt` if that exists (one more packet, timer re-armed), else for a new
-  address (new timer) -/
-  | recv (sends queued : Nat) (defer updates : Bool) (deferAt : Nat := 0)
+  address (new timer); `answersAt = some i`: it is an untruncated query from the address of timer `i`: `_respond_query`
+  cancels that timer, pops the packets deferred for the address and answers them together with this one -/
+  | recv (sends queued : Nat) (defer updates : Bool) (deferAt : Nat := 0) (answersAt : Option Nat := none)
   /-- aggregation-queue timer; `ready`: a group is due and is sent -/
   | outqFire (ready : Bool)
   /-- deferred-TC timer `i` fires: `_respond_query(None, addr, …)` pops the deferred packets and answers the assembled
@@ -334,10 +335,13 @@ def notifyOnFinished : List Out :=
 
 /-- `none`: the block is not enabled in this state (it cannot occur) -/
 def step (h : Host) : Block → Option (Host × List Out)
-  | .recv sends queued defer updates deferAt =>
+  | .recv sends queued defer updates deferAt answersAt =>
     -- a closed transport delivers nothing
     if h.transportsClosed then none
-    else some ({ h with outq := h.outq + queued, tcs := if defer then deferOne h.tcs deferAt else h.tcs,
+    else some ({ h with outq := h.outq + queued,
+                        tcs := match answersAt with
+                          | some i => h.tcs.eraseIdx i
+                          | none => if defer then deferOne h.tcs deferAt else h.tcs,
                         browsers := enqueue h.browsers updates },
                gated h (List.replicate sends .send) ++ notify h updates)
   | .outqFire ready =>
@@ -675,6 +679,37 @@ def accepts (k : Kind) (done tclosed rxClosed cleanup afterClose : Bool) (nsend 
       | _ => ncb = 0 || !afterClose   -- API-driven callbacks (browser start-up replay) only before close returns
     if out.contains .loopError then "reject:timer-without-packet"
     else if !sendOk then "reject:model-silent-but-sent" else if !cbOk then "reject:model-silent-but-called-back" else "ok"
+
+/-! ### the TC timers threaded through a real history
+
+`accepts` judges a block from the flags read off the real objects when it started; the list `tcs` — the listener's armed
+deferral timers with the number of packets each has to answer, the state `TcInv` and "no timer left behind raises" are about — is
+**threaded**: the harness reads `[len(_deferred[a]) for a in _timers]` off the real listeners before every block and before the
+next one, and the model's `step` must be able to take the one to the other (some choice of the block's free arguments). -/
+
+def sortNat (l : List Nat) : List Nat := l.mergeSort (· ≤ ·)
+
+/-- the model blocks an observed block of this kind may be, given the timers before it -/
+def tcCandidates (k : Kind) (before : List Nat) : List Block :=
+  match k with
+  | .recv =>
+    [.recv 0 0 false false 0 none] ++ (List.range (before.length + 1)).map (fun i => Block.recv 0 0 true false i none)
+      ++ (List.range before.length).map (fun i => Block.recv 0 0 false false 0 (some i))
+  | .tc => (List.range before.length).map (fun i => Block.tcFire 0 0 i)
+  | .outq => [.outqFire false]
+  | .sched => [.schedFire 0 0]
+  | .cleanup => [.cleanupFire false]
+  | .task => [.lookupStep 0 false]
+
+/-- does the model explain how the armed TC timers changed over one observed block?  (multisets: the order of a dict of
+addresses is not compared) -/
+def explainsTcs (k : Kind) (done : Bool) (before after : List Nat) : String :=
+  let h : Host := { hostOfFlags done false true false 1 with tcs := before, lookups := 1 }
+  if (tcCandidates k before).any (fun b =>
+      match step h b with
+      | some (h', out) => sortNat h'.tcs == sortNat after && !out.contains .loopError
+      | none => false)
+  then "ok" else "reject:tcs"
 
 structure Flags where
   done : Bool
